@@ -28,3 +28,10 @@ package tracing
 //@   prop C09 C07 C17
 //@   loop 2 range t.subscribers
 //@     invariant pos == -1 || (0 <= pos && pos < len(t.subscribers))
+
+// Unwrap strips wrappers; it is a deterministic function of the trace (no events, no state).
+//@ func Unwrap
+//@   assumed
+//@   pure
+//@   modifies nothing
+//@   flag emits none
